@@ -325,9 +325,8 @@ def run(ctx):
             ast_equal(f, acc, {'kind': 'text', 'text': f, 'default': default}, default=default, sig='header-position')
     ctx.acc.merge(acc)
     # in-process sweep must not have modified the table
-    tm = TokenMatcher('en')
     for d in names:
-        tm._change_dialect(d)
+        TokenMatcher(d)
     if _dialect.DIALECTS != snap:
         ctx.acc.violation('language-table', {'kind': 'files'}, 'DIALECTS modified by matching')
 
